@@ -1,8 +1,8 @@
 (* C17 -- redo-ood/targets/sources are safe over-approximations and change
    nothing (the read-only and partition parts are proved; the two bounds on
    redo-ood are checked against the implementation, see DESIGN.md). *)
-From Coq Require Import ZArith.
-From Redo Require Import Base.Bytes Build.Model Build.LocalProofs.
+From Coq Require Import ZArith List.
+From Redo Require Import Base.Bytes Build.Model Build.LocalProofs Build.OodAgree.
 
 (* none of the three alters anything but the run-id counter: files, rows and
    dependency records are exactly as before *)
@@ -35,6 +35,55 @@ Check C17_cover : forall runid w r,
   \/ stamp_eqb (read_stamp w (r_name r)) SMissing = true
   \/ (r_gen r = false /\ False).
 Print Assumptions C17_cover.
+
+(* ---------------------------------------------------------------- "redo-ood lists every target a following redo-ifchange would rebuild"
+   redo-ood decides with the same dirtiness walk as the builder, but remembers
+   "verified in this run" in a set in memory where the builder writes
+   checked_runid to the database -- and the builder judges COPIES of dependency
+   rows taken when a walk starts, so it may walk again a row that an earlier
+   sibling has verified while redo-ood answers from its set (the two walks are
+   not in lock step).  [check_db] / [check_mem] run the two walks over a list of
+   targets the way the builder and redo-ood do.  From one state at the start of
+   a run (no row verified in it, the targets not built in it, no generated file
+   missing, positive file ids): whenever both return, they return the same
+   verdicts -- for every database, file system, list of targets and fuel.
+   Proof (Build/OodAgree.v): a simulation with the invariant that every row in
+   redo-ood's set is "settled" (its stamp matches, every dependency is itself
+   in the set and not newer), so that a second walk of it by the builder ends
+   clean one level down. *)
+Theorem C17_ood_agrees_with_builder : forall runid w fuel fs vds vms,
+  (0 < runid)%Z -> fresh_run runid w -> none_missing runid w -> ids_positive w ->
+  Forall (fun f => (1 <= f)%nat /\ is_changed runid (load runid (dbs w) f) = false) fs ->
+  check_db runid fuel fs w = Some vds -> check_mem runid w fuel fs (ChkMem []) = Some vms -> vds = vms.
+Proof. exact ood_agrees_with_builder. Qed.
+Check C17_ood_agrees_with_builder : forall runid w fuel fs vds vms,
+  (0 < runid)%Z ->
+  (forall g, (1 <= g)%nat -> is_checked runid (load runid (dbs w) g) = false) ->
+  (forall g, r_gen (load runid (dbs w) g) = true ->
+             stamp_eqb (read_stamp w (r_name (load runid (dbs w) g))) SMissing = false) ->
+  (forall d, In d (deps (dbs w)) -> (1 <= d_source d)%nat) ->
+  Forall (fun f => (1 <= f)%nat /\ is_changed runid (load runid (dbs w) f) = false) fs ->
+  check_db runid fuel fs w = Some vds -> check_mem runid w fuel fs (ChkMem []) = Some vms -> vds = vms.
+Print Assumptions C17_ood_agrees_with_builder.
+
+(* non-vacuity: after a build, a source edit and the allocation of the next run
+   id the premises hold, and both walks return the same non-trivial verdicts
+   for the two targets (t depends on s; u does not) *)
+Example C17_agreement_example :
+  let mk deps p := {| s_deps := deps; s_ifcreate := []; s_always := false; s_stamp := false;
+                      s_out := OStdout; s_payload := p; s_cat := true; s_exit := 0%Z; s_tol := false |} in
+  let s := [115%N] in let t := [116%N] in let u := [117%N] in let z := [122%N] in
+  let h := [SWrite s [1%N]; SWrite z [1%N]; SWriteDo (t ++ b_do) (mk [s] 9%N); SWriteDo (u ++ b_do) (mk [z] 8%N);
+            SCmd (CIfChange false [t; u]); SWrite s [2%N]] in
+  let w1 := fst (last (run_history h (init_world 0)) (init_world 0, None)) in
+  let '(w2, runid) := new_run w1 in
+  fresh_run_b runid w2 = true /\ none_missing_b runid w2 = true /\ ids_positive_b w2 = true /\ (0 <? runid)%Z = true
+  /\ match find_row (rows (dbs w2)) t 1, find_row (rows (dbs w2)) u 1 with
+     | Some ft, Some fu =>
+         check_db runid 50 [ft; fu] w2 = Some [VDirty; VClean]
+         /\ check_mem runid w2 50 [ft; fu] (ChkMem []) = Some [VDirty; VClean]
+     | _, _ => False end.
+Proof. vm_compute. repeat split; reflexivity. Qed.
 
 (* the dirtiness walk used by redo-ood never touches a file *)
 Theorem C17_ood_walk_readonly : forall fuel runid w c f r mx seen v w' c' evs,
